@@ -12,7 +12,7 @@ if os.path.exists("/tmp/seedres%s/%s_%s.first.json" % (rnd, prop, k)):      # ba
 ok = res.get("applies") and res.get("demo_clean", {}).get("rc") == 0 and res.get("demo_patched", {}).get("rc") == 1 and res.get("baseline", {}).get("rc") == 0
 if not ok:
     print("NOT CONFIRMED:", prop, k, {x: res.get(x) for x in ("applies", "demo_clean", "demo_patched", "baseline")}); sys.exit(1)
-tag = {"": "", "2": "r2", "3": "r3", "4": "r4", "5": "r5", "6": "r6", "7": "r7", "8": "r8"}[rnd]
+tag = {"": "", "2": "r2", "3": "r3", "4": "r4", "5": "r5", "6": "r6", "7": "r7", "8": "r8", "9": "r9"}[rnd]
 pid = prop[:3]
 dst = os.path.join(H, "seeded", "%s-%s%s%s" % (pid, tag, "t" if prop.endswith("t") else "", k))
 os.makedirs(dst, exist_ok=True)
@@ -29,7 +29,7 @@ out = {
          ("; round 5: as round 3/4 (told what the checks observe: sizes to 130 qubits / 70001 rows, layouts, argument types, live histories, re-targeted gates) and additionally asked for changes that show only after public setters / in-place edits of live gates, maps or circuits" if rnd == "5" else
           ("; round 6: told what the checks observe after round 5 (sizes to 2^20 rows / 2100 qubits, layouts and element types, live histories incl. setters / attribute writes / in-place edits of defining objects, both numba modes, torch port mirrored) and asked for a different kind of blind spot than size or element type" if rnd == "6" else
            ("; round 7: as round 6, additionally told that line coverage is recorded, that refusal paths, direct layer / gate methods, povm / postselect / vectorised entry points, refused calls inside histories, moved and re-used gates, numpy scalars and exact ties are driven" if rnd == "7" else
-            ("; round 8: as round 7, additionally told about read-only arguments, result-edit histories, re-used argument objects, structured maps, repeated / negative indices, coin independence and python -O" if rnd == "8" else "")))))),
+            ("; round 8: as round 7, additionally told about read-only arguments, result-edit histories, re-used argument objects, structured maps, repeated / negative indices, coin independence and python -O" if rnd in ("8", "9") else "")))))),
     "what_changed": meta.get("what_changed"), "files_changed": meta.get("files_changed"),
     "needs_to_manifest": meta.get("needs_to_manifest"), "why_tests_still_pass": meta.get("why_tests_still_pass"),
     "confirmed_here": {
